@@ -197,19 +197,19 @@ theorem writeFile_keepsKinds {t t' : Tree} {p : Path} {c : List Nat} (h : writeF
     | file d => exact ⟨.file c, h1, rfl⟩
   · exact ⟨n, by rw [h3 q hqp (by rw [hq]; simp), hq], rfl⟩
 
-theorem writeAll_cons (t : Tree) (fd : Path) (f : Path × List Nat) (fs : List (Path × List Nat)) :
-    writeAll t fd (f :: fs) = (match writeFile t (fd ++ f.1) f.2 with
-      | .ok t1 => writeAll t1 fd fs
+theorem writeAll_cons (t : Tree) (dest : Path → Path) (f : Path × List Nat) (fs : List (Path × List Nat)) :
+    writeAll t dest (f :: fs) = (match writeFile t (dest f.1) f.2 with
+      | .ok t1 => writeAll t1 dest fs
       | .error e => .error e) := by
   simp only [writeAll, List.foldlM_cons, bind, Except.bind]
-  cases writeFile t (fd ++ f.1) f.2 <;> rfl
+  cases writeFile t (dest f.1) f.2 <;> rfl
 
-theorem writeAll_spec (fd : Path) : ∀ (fs : List (Path × List Nat)) (t t' : Tree), writeAll t fd fs = .ok t' →
+theorem writeAll_spec (dest : Path → Path) : ∀ (fs : List (Path × List Nat)) (t t' : Tree), writeAll t dest fs = .ok t' →
     KeepsKinds t t' ∧
-    (∀ q d, t.get q = some (.file d) → (∀ f ∈ fs, fd ++ f.1 = q → f.2 = d) → t'.get q = some (.file d)) ∧
-    (∀ q, (∀ f ∈ fs, q ≠ fd ++ f.1) → t.get q ≠ none → t'.get q = t.get q) ∧
-    (∀ q, (∀ f ∈ fs, q ≠ fd ++ f.1 ∧ isAncestor q (fd ++ f.1) = false) → t'.get q = t.get q) ∧
-    ((∀ f ∈ fs, ∀ g ∈ fs, f.1 = g.1 → f.2 = g.2) → ∀ f ∈ fs, t'.get (fd ++ f.1) = some (.file f.2)) := by
+    (∀ q d, t.get q = some (.file d) → (∀ f ∈ fs, dest f.1 = q → f.2 = d) → t'.get q = some (.file d)) ∧
+    (∀ q, (∀ f ∈ fs, q ≠ dest f.1) → t.get q ≠ none → t'.get q = t.get q) ∧
+    (∀ q, (∀ f ∈ fs, q ≠ dest f.1 ∧ isAncestor q (dest f.1) = false) → t'.get q = t.get q) ∧
+    ((∀ f ∈ fs, ∀ g ∈ fs, dest f.1 = dest g.1 → f.2 = g.2) → ∀ f ∈ fs, t'.get (dest f.1) = some (.file f.2)) := by
   intro fs
   induction fs with
   | nil =>
@@ -220,7 +220,7 @@ theorem writeAll_spec (fd : Path) : ∀ (fs : List (Path × List Nat)) (t t' : T
   | cons f fs ih =>
     intro t t' h
     rw [writeAll_cons] at h
-    cases hw : writeFile t (fd ++ f.1) f.2 with
+    cases hw : writeFile t (dest f.1) f.2 with
     | error e => rw [hw] at h; cases h
     | ok t1 =>
       rw [hw] at h
@@ -230,7 +230,7 @@ theorem writeAll_spec (fd : Path) : ∀ (fs : List (Path × List Nat)) (t t' : T
       refine ⟨(writeFile_keepsKinds hw).trans i1, ?_, ?_, ?_, ?_⟩
       · intro q d hq hfun
         apply i2 q d
-        · by_cases hqp : q = fd ++ f.1
+        · by_cases hqp : q = dest f.1
           · rw [hqp, w1, hfun f (List.mem_cons_self) hqp.symm]
           · rw [w3 q hqp (by rw [hq]; simp), hq]
         · exact fun g hg => hfun g (List.mem_cons_of_mem _ hg)
@@ -244,8 +244,7 @@ theorem writeAll_spec (fd : Path) : ∀ (fs : List (Path × List Nat)) (t t' : T
         rcases List.mem_cons.mp hg with rfl | hg'
         · apply i2 _ _ w1
           intro k hk hkq
-          have : k.1 = g.1 := List.append_cancel_left hkq
-          exact hfun k (List.mem_cons_of_mem _ hk) g (List.mem_cons_self) this
+          exact hfun k (List.mem_cons_of_mem _ hk) g (List.mem_cons_self) hkq
         · exact i5 (fun a ha b hb => hfun a (List.mem_cons_of_mem _ ha) b (List.mem_cons_of_mem _ hb)) g hg'
 
 theorem mem_filesUnder {t : Tree} {p rel : Path} {c : List Nat} :
